@@ -205,11 +205,22 @@ func c06Skeleton(t *rapid.T) []byte {
 func c06WellFormed(t *rapid.T) (data []byte, meta [][2]string, recs []vformat.Rec) {
 	meta = vgen.MetaKV(t, vformat.MaxMetaLen)
 	maxN := rapid.SampledFrom([]int{3, 3, 10, 40, 300}).Draw(t, "maxRecs")
+	// one file in forty-eight is larger than 16 MiB (a long-lived file with stack counters): after a few records the
+	// rest, with its chains, lies beyond offset 1<<24 (offsets that need all four bytes of a link)
+	hugeAt := -1
+	if rapid.IntRange(0, 47).Draw(t, "hugeFile") == 0 {
+		maxN = rapid.SampledFrom([]int{40, 300}).Draw(t, "hugeRecs")
+		hugeAt = rapid.IntRange(0, 3).Draw(t, "hugeAt")
+	}
 	names := vgen.DistinctNames(t, 0, maxN, "name")
-	for _, n := range names {
+	for i, n := range names {
 		r := vformat.Rec{Name: n, Value: vgen.Value().Draw(t, "value"), Flags: rapid.SampledFrom([]byte{0xff, 0xff, 0, 1}).Draw(t, "flags")}
 		if rapid.IntRange(0, 4).Draw(t, "gap?") == 0 {
 			r.Gap = uint32(rapid.IntRange(0, 700).Draw(t, "gap")) * 32
+		}
+		if i == hugeAt {
+			r.Gap = 1<<24 - uint32(rapid.IntRange(0, 200).Draw(t, "hugeGapShort"))*32
+			vstats.Label("fileBeyond16MiB")
 		}
 		recs = append(recs, r)
 	}
